@@ -125,6 +125,7 @@ def rest(ctx, s):
           "the writer emits exactly the seven member names the parser dispatches on" if okn else
           "writer names %s differ from the parser's" % sorted(n_.decode() for n_ in names))
     escaping.unescape_writes(ctx, s)
+    escaping.escape_table(ctx, s)
     escaping.writer_escapes(ctx, s, "pocket_types::Event::as_json")
     escaping.writer_escapes(ctx, s, "pocket_types::Tags::as_json")
     ctx.functions.add(aj.path)
